@@ -51,6 +51,10 @@ class ModuleInfo(_Keep):
                         self.names[top] = ("module", top)
             elif isinstance(node, ast.ImportFrom):
                 for a in node.names:
+                    if a.name == "*":
+                        # `from m import *`: every public top-level name of m (resolved lazily, in import order)
+                        self.star_imports = getattr(self, "star_imports", []) + [node.module]
+                        continue
                     self.names[a.asname or a.name] = ("from", node.module, a.name)
             elif isinstance(node, ast.Assign):
                 for t in node.targets:
@@ -211,6 +215,14 @@ class Repo(_Keep):
                 # re-exported class (from x import C)
                 if ent is not None and ent[0] == "from" and self.has_module(ent[1]):
                     return self.klass(ent[1], ".".join([ent[2]] + parts[1:]))
+                if ent is None:
+                    # ... or through `from x import *`
+                    for mn in reversed(getattr(module, "star_imports", [])):
+                        if self.has_module(mn):
+                            try:
+                                return self.klass(mn, qualname)
+                            except ExtractError:
+                                continue
                 raise ExtractError("class %s not found" % key)
             node = ent[1]
             for p in parts[1:]:
